@@ -377,17 +377,17 @@ func c04Run(w *kernel.Worker, j *c04Job, rep *kernel.Report) (*Fail, error) {
 	end := c04S + 4*3600*1000
 	mkq := func(text string) Q { return Q{Index: idx, Text: text, Start: c04S, End: end, Size: 1000} }
 	type qd struct {
-		kind   string // stats | timechart
-		col    string
-		groups []string
-		span   int64
-		byG    bool
-		single string
-		align  int64 // bin ... aligntime= (0: none)
-		win    [2]int64 // time window of the query ([0,0]: the whole range)
-		vgt    *float64 // search filter v > *vgt in front of the stats
-		geq    string   // search filter g=<value> (a dictionary-encoded column) in front of the stats
-		numericOnly bool // the query holds only count/sum/min/max/avg of the column
+		kind        string // stats | timechart
+		col         string
+		groups      []string
+		span        int64
+		byG         bool
+		single      string
+		align       int64    // bin ... aligntime= (0: none)
+		win         [2]int64 // time window of the query ([0,0]: the whole range)
+		vgt         *float64 // search filter v > *vgt in front of the stats
+		geq         string   // search filter g=<value> (a dictionary-encoded column) in front of the stats
+		numericOnly bool     // the query holds only count/sum/min/max/avg of the column
 	}
 	var qs []Q
 	var ds2 []qd
